@@ -22,6 +22,7 @@ type c12Scenario struct {
 	LatencyNs int64      `json:"latency_ns"`
 	Dawdle    int        `json:"handler_dawdle"`
 	Preset    int        `json:"preset"`
+	BlockNs   int64      `json:"event_callback_blocks_ns"`
 }
 
 func netModes(g G, e *Engine) (int, int64) {
@@ -50,6 +51,10 @@ func runC12(e *Engine, g G, o RunOpt) RunInfo {
 	sc.Seg, sc.LatencyNs = netModes(g, e)
 	sc.Dawdle = g.N("dawdle", 3)
 	sc.Preset = g.N("preset", 3)
+	if g.Pct("callback-blocks", 25) {
+		// applications (a StreamManager) stay in the Disconnected callback while they reconnect
+		sc.BlockNs = 3*sc.Client.KeepaliveNs + int64(time.Second)
+	}
 	n := 0
 	switch sc.Preset {
 	case 0: // small streams: cut offsets are covered densely
@@ -86,6 +91,7 @@ func runC12(e *Engine, g G, o RunOpt) RunInfo {
 	w := NewCW(e, sc.Client, certs)
 	w.Dawdle = sc.Dawdle
 	w.CatchAll()
+	kaDuringCallback := -1
 
 	established := false
 	cutDelivered := false
@@ -107,6 +113,16 @@ func runC12(e *Engine, g G, o RunOpt) RunInfo {
 		established = true
 		conn := srv.Conns[0]
 		cli := conn.Pipe.Cli
+		if sc.BlockNs > 0 {
+			w.Client.SetHandler(w.EventRecorder(func(ev xmpp.Event) error {
+				if xmpp.VerifEventState(ev) == xmpp.StateDisconnected {
+					before := cli.KeepaliveWrites
+					e.Sleep(time.Duration(sc.BlockNs))
+					kaDuringCallback = cli.KeepaliveWrites - before
+				}
+				return nil
+			}))
+		}
 		// let the initial presence arrive and everything settle
 		e.Sleep(50 * time.Millisecond)
 		base = conn.End.TotalWritten
@@ -156,7 +172,7 @@ func runC12(e *Engine, g G, o RunOpt) RunInfo {
 		}
 		// wait for the loss to be reported (bounded): silent death needs two
 		// keepalives plus the close timeout
-		limit := 3*ka + time.Duration(sc.Client.ConnectTimeout+5)*time.Second + 5*time.Second
+		limit := 3*ka + time.Duration(sc.Client.ConnectTimeout+5)*time.Second + 5*time.Second + time.Duration(sc.BlockNs)
 		e.WaitUntilFor("await-disconnect", limit, func() bool {
 			return len(w.Events) > 0 && w.Events[len(w.Events)-1].State == xmpp.StateDisconnected && w.Events[len(w.Events)-1].Seq > 0 && countState(w.Events, xmpp.StateDisconnected) > 0 && len(w.Errors) > 0
 		})
@@ -224,6 +240,12 @@ func runC12(e *Engine, g G, o RunOpt) RunInfo {
 		if !o.Avoiding("inbound-counts-nonstanza") && int(ev.Inbound) != complete {
 			e.Violate("C12", "event-smstate-inbound", "Disconnected event carries inbound count %d, %d stanzas were completely received", ev.Inbound, complete)
 		}
+	}
+	if kaDuringCallback > 0 {
+		e.Violate("C12", "keepalive-during-disconnected-callback", "%d keepalive writes while the Disconnected callback was running (%v)", kaDuringCallback, time.Duration(sc.BlockNs))
+	}
+	if sc.BlockNs > 0 {
+		e.Probe("c12.blocking_callback")
 	}
 	if kaWritesAtCheck != kaWritesAfter {
 		e.Violate("C12", "keepalive-after-loss", "%d keepalive writes after the loss was reported", kaWritesAtCheck-kaWritesAfter)
